@@ -98,7 +98,7 @@ class FPV:
         except ZeroDivisionError:
             if self.value == 0 or math.isnan(self.value):  # 0/0 and NaN/0 are NaN, not an infinity
                 return FPV(float("nan"), self.sort)
-            if str(self.value * o.value)[0] == "-":
+            if math.copysign(1.0, self.value) * math.copysign(1.0, o.value) < 0:  # inf * -0.0 is NaN: use the signs
                 return FPV(float("-inf"), self.sort)
             return FPV(float("inf"), self.sort)
 
@@ -137,7 +137,7 @@ class FPV:
         except ZeroDivisionError:
             if o.value == 0 or math.isnan(o.value):  # 0/0 and NaN/0 are NaN, not an infinity
                 return FPV(float("nan"), self.sort)
-            if str(o.value * self.value)[0] == "-":
+            if math.copysign(1.0, o.value) * math.copysign(1.0, self.value) < 0:  # inf * -0.0 is NaN: use the signs
                 return FPV(float("-inf"), self.sort)
             return FPV(float("inf"), self.sort)
 
